@@ -19,7 +19,7 @@ EXPLANATION = (
     " (R8) in the join a removal of RetryCount and RetryTimeout from the context dominates every handle_error/change_state call, and what is restored is the fan-out state's own pair from the Branch record; (R9) nothing that can raise a catchable error is reachable from the push of the placeholder Branch record in a fan-out delegate unless the handlers pop it.")
 RULE_TEXT = "obligation = one structural fact of the retry/catch algorithm at a named site; non-trivial = distinct (rule, site)"
 
-UNRECOVERABLE = {"States.Runtime", "States.ExecutionTimeout", "Task.Terminated"}
+UNRECOVERABLE = {"States.Runtime", "States.ExecutionTimeout", "Task.Terminated", "States.ExecutionHistoryLimitExceeded"}   # the last one since fix d8e1785: a quota of the execution, not an error of the state entered
 
 
 def _loops(p, se):
